@@ -22,7 +22,7 @@ from .c19 import Table, _no_tg
 PROP = 'C03'
 MUTATORS = {'fix', 'set_regimen', 'check'}
 OBSERVERS = {'check'}
-BUDGET = {'quick': {'runs': 1200, 'wall': 75},
+BUDGET = {'quick': {'runs': 2000, 'wall': 75},
           'thorough': {'runs': 60000, 'wall': 1500}}
 RULE = ('seeded generation of mechanistic-model configuration histories '
         '(routes, regimens, renames, output changes, sensitivity switches, '
